@@ -92,7 +92,7 @@ ROUND3 = {
  'C06': ' Round 3: subscription ids dealt again after a successful unsubscribe.',
  'C07': ' Round 3: buffered bodies of known size without a Content-Length header; with server pings on a peer that never pongs stays alive through its messages, the refused oversized one included.',
  'C08': ' Round 3: HTTP over a connection (low-level HTTP entry point), tiny limits (38-40 bytes) with an unsubscribe reply at the limit.',
- 'C09': ' Round 3: an on_disconnect() watcher that has been waiting since before the failure must see the same cause.',
+ 'C09': ' Round 3: an on_disconnect() watcher that has been waiting since before the failure must see the same cause. Round 7: every eighth run the poison message is long and multi-byte (6-12 KB of 2-, 3- or 4-byte characters at every alignment), so that a cut or index at any byte offset of the echoed message meets the inside of a character in some run.',
  'C10': ' Round 3: subscribe calls whose handler accepts late (possibly after the stop, under back-pressure) must be answered; never-ending calls whose peer sends one more frame after the stop and then leaves must not keep stopped() from resolving.',
  'C11': ' Round 3: aborted HTTP calls whose handler never ends (the slot must come back because the client left).',
  'C19': ' Round 3: a service with the GET proxy layer: HEAD / OPTIONS / TRACE / PUT / DELETE / PATCH stay 405 and reach no handler on mapped paths too.',
